@@ -1,5 +1,6 @@
 //! Whole-image decoding through `JxlImage`: per-keyframe channel dumps (integer grids when the
 //! renderer kept them, otherwise f32 bit patterns).
+use std::fmt::Write as _;
 use jxl_oxide::{JxlImage, JxlThreadPool};
 use jxl_render::ImageBuffer;
 use verif_harness::*;
@@ -28,7 +29,7 @@ fn dump_buf(b: &ImageBuffer, out: &mut String) {
     }
 }
 
-fn decode(bytes: &[u8], wide: bool, threads: usize) -> String {
+fn decode(bytes: &[u8], wide: bool, threads: usize, region: Option<jxl_oxide::CropInfo>) -> String {
     let pool = if threads == 0 {
         JxlThreadPool::none()
     } else {
@@ -39,11 +40,28 @@ fn decode(bytes: &[u8], wide: bool, threads: usize) -> String {
         .force_wide_buffers(wide)
         .alloc_tracker(jxl_oxide::AllocTracker::with_limit(1 << 30))
         .read(std::io::Cursor::new(bytes));
-    let image = match image {
+    let mut image = match image {
         Ok(i) => i,
         Err(e) => return format!("err read {}", err_class(&*e)),
     };
     let mut out = format!("ok {}", image.num_loaded_keyframes());
+    if let Some(c) = region {
+        // a region request after loading (the render handles are rebuilt): the interleaved f32 picture
+        image.set_image_region(c);
+        for k in 0..image.num_loaded_keyframes() {
+            match image.render_frame(k) {
+                Err(e) => out.push_str(&format!(" kerr {}", err_class(&*e))),
+                Ok(r) => {
+                    let fb = r.image_all_channels();
+                    write!(out, " fb {} {} {}", fb.width(), fb.height(), fb.channels()).unwrap();
+                    for v in fb.buf() {
+                        write!(out, " {}", v.to_bits()).unwrap();
+                    }
+                }
+            }
+        }
+        return out;
+    }
     for k in 0..image.num_loaded_keyframes() {
         match image.render_frame(k) {
             Err(e) => {
@@ -69,7 +87,14 @@ fn main() {
             let Some(bytes) = unhex(hexs) else { return "bad-op".into() };
             let mut wide = false;
             let mut threads = 0usize;
+            let mut region = None;
             for r in rest {
+                if let Some(v) = r.strip_prefix("region=") {
+                    let p: Vec<u32> = v.split(',').filter_map(|x| x.parse().ok()).collect();
+                    if p.len() == 4 {
+                        region = Some(jxl_oxide::CropInfo { left: p[0], top: p[1], width: p[2], height: p[3] });
+                    }
+                }
                 if let Some(v) = r.strip_prefix("wide=") {
                     wide = v == "1";
                 }
@@ -77,7 +102,7 @@ fn main() {
                     threads = v.parse().unwrap_or(0);
                 }
             }
-            match catch(|| decode(&bytes, wide, threads)) {
+            match catch(|| decode(&bytes, wide, threads, region)) {
                 Ok(s) => s,
                 Err(p) => p,
             }
